@@ -295,7 +295,7 @@ pub fn cmd_check(args: &[String]) -> i32 {
     let seed: u64 = arg(args, "--seed").and_then(|s| s.parse().ok()).or_else(|| std::env::var("VERIF_SEED").ok().and_then(|s| s.parse().ok())).unwrap_or(DEFAULT_SEED);
     let runs: u64 = arg(args, "--runs").and_then(|s| s.parse().ok()).unwrap_or(if tier == "quick" { sp.quick_runs } else { sp.thorough_runs });
     let jobs: u64 = arg(args, "--jobs").and_then(|s| s.parse().ok()).unwrap_or_else(|| std::thread::available_parallelism().map(|n| n.get() as u64).unwrap_or(4).min(16));
-    let deadline_ms: u64 = arg(args, "--deadline-ms").and_then(|s| s.parse().ok()).unwrap_or(if tier == "quick" { if cfg!(feature = "sched") { 40_000 } else { 60_000 } } else { 1_500_000 });
+    let deadline_ms: u64 = arg(args, "--deadline-ms").and_then(|s| s.parse().ok()).or_else(|| std::env::var("VERIF_DEADLINE_MS").ok().and_then(|s| s.parse().ok())).unwrap_or(if tier == "quick" { if cfg!(feature = "sched") { 40_000 } else { 60_000 } } else { 1_500_000 });
     let t0 = Instant::now();
     let exe = std::env::current_exe().expect("current_exe");
     let work = format!("{}/.work/{}", verif_home(), std::process::id());
